@@ -6,6 +6,7 @@
 package main
 
 import (
+	"verif/harness/pipe"
 	"fmt"
 	"strconv"
 	"strings"
@@ -800,8 +801,12 @@ func main() {
 	if lines := run.ReplayLines(); lines != nil {
 		it.reset(psh.Conf{Ver: "1.0.0", MRS: int(defaultMRS), MMB: 1000000})
 		for _, l := range lines {
+			if strings.HasPrefix(l, "sc ") {
+				continue // a pipeline scenario: replayed below
+			}
 			it.exec(l)
 		}
+		pipe.OracleOnly(run, "C16", []string{"C16:"}, 0)
 		run.Finish("replay")
 		return
 	}
@@ -831,6 +836,9 @@ func main() {
 	g.undercount()
 	// default limits: one request-limit case with the real 100 MiB MaxRequestSize and 1 MB messages
 	g.bigCase()
+	// end-to-end: the real pipeline against the simulated cluster (broker latency, tight limits, fault scripts);
+	// the C16 oracles are evaluated on what the brokers received and on the success events
+	pipe.OracleOnly(run, "C16", []string{"C16:"}, 160)
 	run.Finish("set cases: conf x topics x 3..40 adds/drops with sizes aimed at MaxMessageBytes / MaxRequestSize-10KiB / own size limit (+-2), " +
 		"grid: MMB x MaxMessages x Flush.Messages x Flush.Bytes x Frequency x version generation with the boundary hit at -1/0/+1; " +
 		"disp: dispatcher verdict at byteSize = MMB-1,MMB,MMB+1; bp: the real run loop. non-trivial = a case in which at least one add met wouldOverflow=true (or any run-loop case)")
